@@ -1,7 +1,7 @@
-SPECIFICATION SimSpec
+SPECIFICATION Spec
 CONSTANTS
   CfgChoices <- CfgsC10
-  CtrlChoices <- CtrlsC10
+  CtrlChoices <- CtrlsC10core
   MethodChoices <- MethodsC10double
   TypeChoices <- StdTypes
   MaxCtrls = 1
